@@ -340,6 +340,11 @@ def run(ck):
             if len(ep) != 1:
                 bad = 'expected one encode_prefix call'
                 continue
+            if len(ep[0].args) != 4:
+                ck.broken('C13.d', fn if 'fn' in dir() else 'encode_prefix:use', cast.where(ep[0].node) if ep[0].node else '',
+                          'encode_prefix is called with %d arguments; the rule reads the confirmed form (kind, memory, capacity, length)' % len(ep[0].args))
+                bad = None
+                break
             if ep[0].args[0] != ('v', 'k') or ep[0].args[3] != ('v', 'n'):
                 bad = 'encode_prefix called with (%s, .., %s)' % (fmt(ep[0].args[0]), fmt(ep[0].args[3]))
             neg = any(c == ('cmp', '<', ep[0].result, C(0)) for c in p.cond_terms())
